@@ -376,11 +376,12 @@ def getDependentsForService (p : Proj) (s : Svc) : List String := sortNames (key
 def getDependents (p : Proj) (s : Svc) : List String :=
   p.services.filterMap fun kv => if has s.name kv.2.deps then some kv.2.name else none
 
-/-- all profiles named by the services of a map, in range order, each once (what `Services.GetProfiles` returned
-before its `fix:` commit: the order was Go's map order) -/
+/-- `Services.GetProfiles`: all profiles named by the services of a map, each once.  The Go function collects them in a map
+and lists that map by ranging over it, so the *order* of the slice is Go's map order (here: range order of the services);
+callers get an unordered list (a reviewed order-leak site of C02, `Spec/Determinism.lean`) -/
 def getProfilesPre (svcs : AL Svc) : List String := (svcs.flatMap fun kv => kv.2.profiles).eraseDups
 
-/-- `Services.GetProfiles` (after the `fix:` commit): the profiles named by the services of the map, each once, sorted -/
+/-- `Services.GetProfiles` as the set it is: the sorted view (what the harness compares, and the only thing a caller may rely on) -/
 def getProfiles (svcs : AL Svc) : List String := sortNames (getProfilesPre svcs)
 
 /-- `WithSelectedServices(names, options...)`: the options are handed to `ForEachService` as they are -/
